@@ -339,20 +339,77 @@ theorem env_sampler_table (name : Option Bytes) (hasArg : Bool) (pf : PF) (nan :
 example : samplerFromEnv (some (str " ParentBased_TraceIDRatio ")) true (.val 0x3FD0000000000000) 0
     = (some (parentBasedDefault (.ratioB (2 ^ 61))), .ok) := by decide
 
-/-! ## Stated, not proved (checked by the oracle on every `tree` line) -/
+/-! ## A whole span tree (one provider, nodes started in order, each under the external parent or an earlier node) -/
 
 /-- every parent index refers to an earlier node -/
 def WellFormed (nodes : List NodeIn) : Prop :=
   ∀ (k : Nat) (n : NodeIn), nodes[k]? = some n → n.parentIdx < (k : Int)
 
-/-- the tree-level composition of `span_ok`, `sampler_answer_ok` and `span_exported_iff_sampled`: running a
-whole tree on the model satisfies `Spec.treeOK` and `Spec.exportOK`. The per-span theorems above are proved;
-the induction over `runTree` that threads each node's observed context to its children is not. -/
-def tree_spec_statement : Prop :=
-  ∀ (nan : Nat) (e : SExpr) (ext : Ctx) (nodes : List NodeIn),
-    ext.flags < 256 → ext.tid.length = 16 → (∀ n ∈ nodes, n.genTid.length = 16) → WellFormed nodes →
+/-- `WellFormed` is decidable (by the executable check `wfFrom 0`, see `wfFrom_zero_iff`) -/
+instance (nodes : List NodeIn) : Decidable (WellFormed nodes) :=
+  decidable_of_iff (wfFrom 0 nodes = true) (wfFrom_zero_iff nodes)
+
+/-- **the per-span theorems compose along a whole span tree**: running any well-formed tree on the model (any
+sampler expression, any external parent, any per-node options / generator ids / scripted answers) satisfies
+`Spec.treeOK` — every node fulfils `Spec.spanOK` and `Spec.answerOK` w.r.t. the context *its parent ended up
+with* — and `Spec.exportOK` — the exporter holds exactly the sampled spans, in `End` order, each naming its
+parent. Composition of `span_ok`, `sampler_answer_ok`, `span_sampled_is_recording` through the recursion of
+`runTree` (`runTree_zip`: the spans started before a node are final, later spans do not change them). -/
+theorem tree_spec (nan : Nat) (e : SExpr) (ext : Ctx) (nodes : List NodeIn)
+    (hf : ext.flags < 256) (ht : ext.tid.length = 16) (hg : ∀ n ∈ nodes, n.genTid.length = 16)
+    (hwf : WellFormed nodes) :
     let outs := runTree (build nan e) ext nodes []
     Spec.treeOK e ext nodes (outs.map Spec.obsOf) = true
+    ∧ Spec.exportOK ext nodes (outs.map Spec.obsOf) (exportedOf outs) = true := by
+  intro outs
+  obtain ⟨hlen, hz⟩ := runTree_zip (build nan e) ext nodes ⟨hf, ht⟩ hg ((wfFrom_zero_iff nodes).mpr hwf)
+  constructor
+  · unfold Spec.treeOK
+    simp only [Bool.and_eq_true, beq_iff_eq, List.all_eq_true, List.length_map]
+    refine ⟨hlen.symm, ?_⟩
+    rw [List.zip_map_right]
+    rintro ⟨n, ob⟩ hmem
+    obtain ⟨⟨n', o⟩, hmem', heq⟩ := List.mem_map.mp hmem
+    simp only [Prod.map, id, Prod.mk.injEq] at heq
+    obtain ⟨rfl, rfl⟩ := heq
+    obtain ⟨ho, hgood, hgt⟩ := hz n' o hmem'
+    simp only [parentOf_map]
+    rw [ho]
+    exact ⟨span_ok (build nan e) ⟨parentCtx ext outs n'.parentIdx, n'.newRoot, n'.genTid, n'.genSid, n'.script⟩ hgood.1,
+      sampler_answer_ok nan e ⟨parentCtx ext outs n'.parentIdx, n'.newRoot, n'.genTid, n'.genSid, n'.script⟩
+        (newSpan_good _ _ hgood hgt).2⟩
+  · apply export_zip ext nodes _ hlen
+    intro n o hmem
+    obtain ⟨ho, hgood, _⟩ := hz n o hmem
+    rw [ho]
+    exact ⟨export_pred _ (span_sampled_is_recording (build nan e)
+      ⟨parentCtx ext outs n.parentIdx, n.newRoot, n.genTid, n.genSid, n.script⟩ hgood.1), rfl⟩
+
+/-- non-vacuity: a well-formed tree of four nodes under a sampled remote parent with default `ParentBased(never)`:
+a root-level child (0), a child of it (1), a child of that child (2), and a new root (3) hanging under node 1.
+The hypotheses hold, the conclusions compute to true, and the exporter gets nodes 2, 1, 0 (not the new root,
+which the root sampler `never` drops). -/
+example :
+    let e : SExpr := .pb .never .always .never .always .never
+    let ext : Ctx := ⟨zeros 15 ++ [7], zeros 7 ++ [9], 1, [97], true⟩
+    let nodes : List NodeIn :=
+      [⟨-1, false, zeros 15 ++ [1], zeros 7 ++ [1], default⟩, ⟨0, false, zeros 15 ++ [2], zeros 7 ++ [2], default⟩,
+       ⟨1, false, zeros 15 ++ [3], zeros 7 ++ [3], default⟩, ⟨1, true, zeros 15 ++ [4], zeros 7 ++ [4], default⟩]
+    let outs := runTree (build 0 e) ext nodes []
+    ext.flags < 256 ∧ ext.tid.length = 16 ∧ (∀ n ∈ nodes, n.genTid.length = 16) ∧ WellFormed nodes
+    ∧ Spec.treeOK e ext nodes (outs.map Spec.obsOf) = true
     ∧ Spec.exportOK ext nodes (outs.map Spec.obsOf) (exportedOf outs) = true
+    ∧ (exportedOf outs).map (·.sid) = [zeros 7 ++ [3], zeros 7 ++ [2], zeros 7 ++ [1]]
+    ∧ (outs.map (·.ctx.tid)) = [zeros 15 ++ [7], zeros 15 ++ [7], zeros 15 ++ [7], zeros 15 ++ [4]] := by
+  decide
+
+/-- the hypothesis `WellFormed` cannot be dropped: a node naming itself as its parent is started by the model
+under the zero-length default context (the harness never produces such a tree), and the result fails
+`Spec.treeOK` -/
+example :
+    let nodes : List NodeIn := [⟨0, false, zeros 15 ++ [1], zeros 7 ++ [2], ⟨2, none⟩⟩]
+    ¬ WellFormed nodes
+    ∧ Spec.treeOK .always Ctx.zero nodes ((runTree (build 0 .always) Ctx.zero nodes []).map Spec.obsOf) = false := by
+  decide
 
 end Otel.C09
